@@ -668,9 +668,14 @@ fn create_room_constraint_set<'a>(
                 + course.room_factor * (course.num_min + course.instructors.len()) as f32)
                 .ceil() as usize)
         {
-            let shrink_size = (((to_size as f32) - course.room_offset) / course.room_factor).floor()
-                as usize
-                - course.instructors.len();
+            // The course fits into the room with its minimal size (checked above with the forward computation). The inverse
+            // computation may round differently (e.g. factor 1.2, 15 people, room size 18: 18.0 / 1.2f32 = 14.99...), so make
+            // sure never to shrink the course below that size.
+            let max_persons = std::cmp::max(
+                (((to_size as f32) - course.room_offset) / course.room_factor).floor() as usize,
+                course.num_min + course.instructors.len(),
+            );
+            let shrink_size = max_persons - course.instructors.len();
             // Don't shrink courses that are already shrinked further in the current node
             if current_node
                 .shrinked_courses
